@@ -91,7 +91,7 @@ func TestCheck(t *testing.T) {
 			}
 			runIP(r, nsock, nil)
 		}
-		r.Extra["rule"] = "SCION listener (IPv4/IPv4, IPv6/IPv6, IPv4/IPv6 and IPv6/IPv4 client/server hosts x empty / two-segment SCION / one-hop path): the same payload space inside valid SCION/UDP packets, replies parsed with the SCION library (last hop, reversed path, swapped addresses and ports); IP listener (1 and 2 SO_REUSEPORT sockets): all 256 first bytes x 4 header fills x 10 datagram lengths (0..2048) x trailers {zeros, 0xff, constant}; valid NTS requests (pool levels 8 and 5) around every first byte, and with single flipped bytes; every reply is fed back into the listener. Distinct = distinct datagrams; non-trivial = length >= 48 (reaches validation)"
+		r.Extra["rule"] = "SCION listener (IPv4/IPv4, IPv6/IPv6, IPv4/IPv6 and IPv6/IPv4 client/server hosts x empty / two-segment SCION / one-hop path): the same payload space inside valid SCION/UDP packets, replies parsed with the SCION library (last hop, reversed path, swapped addresses and ports); IP listener (1 and 2 SO_REUSEPORT sockets): all 256 first bytes x 4 header fills x 10 datagram lengths (0..2048) x trailers {zeros, 0xff, constant}; valid NTS requests (pool levels 8 and 5, alternating between two client associations of the same server) around every first byte, and with single flipped bytes; every reply is fed back into the listener. Distinct = distinct datagrams; non-trivial = length >= 48 (reaches validation)"
 	})
 }
 
@@ -101,6 +101,9 @@ func runIP(r *mc.Run, nsock int, only *dgram) {
 	world.Run(r.T, x, func(w *world.World) {
 		server.VerifResetTSS()
 		sess := kit.NewSession(7)
+		// a second client association with the same server (its own session keys)
+		sess2 := kit.NewSession(0x61)
+		sess2.Provider = sess.Provider
 		srvAddr := netip.MustParseAddrPort("10.0.0.1:123")
 		socks := make([]*vnet.UDPConn, nsock)
 		start := func(i int) {
@@ -197,7 +200,11 @@ func runIP(r *mc.Run, nsock int, only *dgram) {
 				if d.Trailer == "nts5" {
 					pool = 5
 				}
-				pkt, _ := sess.Request(h, pool)
+				ss := sess
+				if d.First%2 == 1 {
+					ss = sess2 // requests of the two associations alternate on the sockets
+				}
+				pkt, _ := ss.Request(h, pool)
 				ok := validHeader(byte(d.First))
 				if d.Flip != 0 {
 					pkt[d.Flip] ^= 0x01
@@ -279,6 +286,8 @@ func runSCION(r *mc.Run, v6 string, ps kit.PathSpec) {
 	world.Run(r.T, x, func(w *world.World) {
 		server.VerifResetTSS()
 		sess := kit.NewSession(7)
+		sess2 := kit.NewSession(0x61)
+		sess2.Provider = sess.Provider
 		sh, ch := kit.SrvHost, kit.CliHost
 		// both hosts IPv4, both IPv6, or one of each (the address types in the reply
 		// header must be exchanged along with the addresses)
@@ -387,7 +396,11 @@ func runSCION(r *mc.Run, v6 string, ps kit.PathSpec) {
 			}
 			for _, pool := range []int{8, 5} {
 				h := header(byte(first), "client")
-				pkt, _ := sess.Request(h, pool)
+				ss := sess
+				if first%2 == 1 {
+					ss = sess2
+				}
+				pkt, _ := ss.Request(h, pool)
 				d := dgram{First: first, Fill: "client", Trailer: fmt.Sprintf("nts%d", pool), Len: len(pkt)}
 				send(d, pkt, validHeader(byte(first)))
 				for _, f := range []int{1, 47, 52, len(pkt) - 1} {
